@@ -1,12 +1,12 @@
 SPECIFICATION Spec
 CONSTANTS
   Owners = {"k1", "k2"}
-  Addrs = {1, 2}
+  Addrs = {1, 2, 3}
   Unspec = 0
-  Cap = 0
+  Cap = 2
   BookkeepFirst = FALSE
   Bits = {"b0", "b1"}
-  MaxHist = 4
+  MaxHist = 5
   GenBms = {{"b0"}, {"b1"}}
-  GenIpsets = {{}, {1}, {1, 2}}
-INVARIANTS Mirror TrackerConsistent Emit
+  GenIpsets = {{1}, {3}, {1, 2}}
+INVARIANTS MirrorWhenSynced TrackerConsistent EmitFail
